@@ -870,6 +870,14 @@ func (env *Env) call(e *Expr) Value {
 				r.T = mathInt
 			}
 			return r
+		case "srank":
+			// srank(s): the rank of s in the lexicographic order (same embedding as the < operator on strings)
+			v := env.eval(args[0])
+			k := env.st.uf("skey", SInt, v.Tm)
+			if env.inQuant == 0 {
+				k = env.st.strKey(v.Tm)
+			}
+			return Value{T: mathInt, Tm: env.st.strRank(k)}
 		case "key":
 			v := env.eval(args[0])
 			if env.inQuant > 0 {
@@ -908,11 +916,12 @@ func (env *Env) call(e *Expr) Value {
 			return Value{T: T, Tm: env.st.uf("iunbox_"+sanitize(string(s)), s, IfVal(v.Tm))}
 		case "nrecv", "nsent":
 			v := env.eval(args[0])
+			env.st.chanTypeFact(v)
 			nm := "NCR"
 			if fnE.Op == "nsent" {
 				nm = "NCS"
 			}
-			h := env.st.heapGet(nm, ArraySort(SInt, SInt))
+			h := env.st.heapGet(chanCounterName(nm, v.T), ArraySort(SInt, SInt))
 			return Value{T: mathInt, Tm: Select(h, v.Tm)}
 		case "ncalls":
 			// ghost call counter of a func-valued field or callee key
